@@ -385,7 +385,7 @@ def create_for_folder_subcommand(
         not_found_paths = not_found_paths - found_file_paths
     commit_session(session, author_name, author_email, author_phone, author_role, location, comment)
 
-    exception = test_for_missing_files(not_found_paths, root_path, ignore_spec)
+    exception = test_for_missing_files(not_found_paths, root_path, ignore_spec, existing_history)
     if num_failed_verifications > 0:
         exception = errors.VerificationFailedException()
 
@@ -680,7 +680,7 @@ def verify_entire_folder(
 
                 found_single_file = True
 
-    exception = test_for_missing_files(not_found_paths, root_path, ignore_spec)
+    exception = test_for_missing_files(not_found_paths, root_path, ignore_spec, existing_history)
 
     # only relevant if we have been asked to verify a single file, a folder without any (non-ignored) file is fine
     if single_file is not None and not found_single_file:
@@ -1098,7 +1098,7 @@ def diff_entire_folder_against_full_history_subcommand(root_path, verbose, ignor
                 num_new_files += 1
                 continue
 
-    exception = test_for_missing_files(not_found_paths, root_path, ignore_spec)
+    exception = test_for_missing_files(not_found_paths, root_path, ignore_spec, existing_history)
     if num_failed_verifications > 0:
         exception = errors.VerificationFailedException()
     if not exception and num_new_files > 0:
@@ -1460,10 +1460,19 @@ def xsd_schema_check(file_path, directory_file, xsd_file):
         raise errors.VerificationFailedException
 
 
-def test_for_missing_files(not_found_paths, root_path, ignore_spec: MHLIgnoreSpec = MHLIgnoreSpec()):
+def test_for_missing_files(not_found_paths, root_path, ignore_spec: MHLIgnoreSpec = MHLIgnoreSpec(), history=None):
     ignore_path_spec = ignore_spec.get_path_spec()
+
+    def is_ignored(path):
+        relative_path = os.path.relpath(path, root_path)
+        if ignore_path_spec.match_file(relative_path):
+            return True
+        # what was recorded as a folder is matched like a folder (see traverse), it cannot be asked on disk any more
+        is_folder = history is not None and history.is_recorded_as_directory(path)
+        return is_folder and ignore_path_spec.match_file(relative_path + "/")
+
     # update to exclude our ignored files
-    not_found_paths = [x for x in not_found_paths if not ignore_path_spec.match_file(os.path.relpath(x, root_path))]
+    not_found_paths = [x for x in not_found_paths if not is_ignored(x)]
     if len(not_found_paths) == 0:
         return None
     # test our not_found_paths against our ignore spec to ensure these weren't explicitly ignored.
